@@ -76,6 +76,13 @@ func runHistory(t *rapid.T) {
 			w.Advance(left + time.Second)
 		}
 		w.Encrypt(sb, []byte("the SK has just expired"), false, false)
+		if rapid.Bool().Draw(t, "busySession") && pol.RevokeCheckInterval >= 3*time.Second {
+			// a busy session: encrypts spaced closer than the revoke-check interval, well past the bound
+			for k := 0; k < 7; k++ {
+				w.Advance(pol.RevokeCheckInterval / 3)
+				w.Encrypt(sb, []byte("busy"), false, false)
+			}
+		}
 		w.Advance(pol.RevokeCheckInterval + pol.CreateDatePrecision + time.Second)
 		w.Encrypt(sb, []byte("one interval later"), false, false)
 		w.Decrypt(sb, first, false, false)
